@@ -140,6 +140,10 @@ func process2EncodeString(obj any, mergeFrom *Document, mergeFromDocs []*Documen
 		return base64.StdEncoding.EncodeToString([]byte(obj2)), nil
 
 	case "flags":
+		if len(parts) != 1 {
+			return nil, fmt.Errorf("$encode: %s: %w", v, ErrInvalidArguments)
+		}
+
 		return process2EncodeAny(obj, mergeFrom, mergeFromDocs, []any{"tolist:=", "prefix:--"}, depth+1)
 
 	case "flatten":
